@@ -83,6 +83,7 @@ def member_trace(tid, member_case, rec_member, *, collecting, records):
         "match_count": p.match_count,
         "scan_count": p.scan_count,
         "printed": [txt(s) for s in cap.lines],
+        "checkLines": False, "lines": [], "headers": [],
     }
     return {
         "tid": tid,
